@@ -67,6 +67,9 @@ def gemmFloat (attrs : Json) (A B : DT) (C : Option DT) : Answer :=
 
 def runMatMulOp (op : String) (attrs : Json) (ins : List (Option DT)) : Answer :=
   match op, ins with
+  | "MatMul", [some ⟨_, _, some _⟩, some _] | "MatMul", [some _, some ⟨_, _, some _⟩] =>
+    -- operands carried bit for bit: judged by the float reference of the comparator (checklib/floatref.py)
+    { model := { status := "unmodelled" }, tags := ["float-bits"] }
   | "MatMul", [some A, some B] =>
     let tags := [s!"ra{A.t.rank}", s!"rb{B.t.rank}"]
     let sp := Spec.matmul intArith A.t B.t
@@ -114,6 +117,8 @@ def runMatMulOp (op : String) (attrs : Json) (ins : List (Option DT)) : Answer :
         if A.dt == .f32 && B.dt == .f32 && (match C with | some c => c.dt == .f32 | none => true) then
           gemmFloat attrs A B C
         else { model := { status := "inexact" } }
+  | "LinearRegressor", [some ⟨_, _, some _⟩] | "Scaler", [some ⟨_, _, some _⟩] =>
+    { model := { status := "unmodelled" }, tags := ["float-bits"] }
   | "LinearRegressor", [some X] =>
     let names := attrNames attrs
     if names.contains "post_transform" || names.any (fun n => !["coefficients", "intercepts", "targets", "post_transform"].contains n) then
